@@ -31,12 +31,17 @@ PROBES = ['compile_race_second_thread_blocked_on_cooklock',
           'strategy_write_biased', 'switch_right_after_attribute_write',
           'one_thread_failed_others_fine', 'parse_error_template',
           'sort_expr_per_thread', 'shared_sub_template', 'tree_tag',
-          'callback_yield_switch', 'second_call_of_a_thread']
+          'callback_yield_switch', 'second_call_of_a_thread',
+          'tree_cookie_protocol', 'two_threads_carry_the_same_tree_s',
+          'tree_click_request']
 RULE = ('templates: generator-A programs over every block tag (per-thread '
         'call-back answers, tokens carry the thread tag) and compositions '
         'of hand-written fragments (sort_expr / reverse_expr / batch '
         'parameters / let / with / try / statistics / nested shared '
-        'sub-template) with per-thread plain inputs; 2-3 threads; template '
+        'sub-template) with per-thread plain inputs; the tree tag with its '
+        'real cookie protocol (every thread a browser tab that clicked its '
+        'way to a state beforehand and now sends its next request; tabs of '
+        'one browser carry the same tree-s string); 2-3 threads; template '
         'uncooked in ~70% of the cases; plain HTML and a subclass with '
         'permissive guards (restricted Eval path); a few unparsable '
         'sources.  Per case a batch of schedules: one pre-emption at a '
@@ -55,7 +60,10 @@ ASSUMPTIONS = [
     'package-created locks are simulated through the import-time '
     'threading.Lock / RLock factory; locks created elsewhere are real and '
     'never contended (only one worker runs at any instant)',
-    'the oracle is the real code itself run alone on a fresh template',
+    'the oracle is the real code itself run alone on a fresh template, in '
+    'a forked child process in which nothing else has been rendered; every '
+    'case runs in its own forked child, starting from the interpreter state '
+    'right after warm-up',
 ]
 
 FOREVER = S.INF
@@ -68,7 +76,7 @@ def gen_case(seed, tier):
     from . import c08
     from . import c17
     r = core.stream(seed, 'c18')
-    family = r.choice(['gen', 'gen', 'hand'])
+    family = r.choice(['gen', 'gen', 'gen', 'hand', 'hand', 'tree'])
     k = r.choice([2, 2, 2, 3])
     case = {'family': family, 'nthreads': k,
             'precooked': r.random() < 0.3,
@@ -82,7 +90,9 @@ def gen_case(seed, tier):
             'sched_seed': r.randint(0, 10 ** 9), 'segments': None,
             'calls': r.choice([1, 1, 2]),
             'exhaust_one': tier == 'thorough' and r.random() < 0.5}
-    if family == 'gen':
+    if family == 'tree':
+        gen_tree_family(r, case)
+    elif family == 'gen':
         enabled = [x for x in c08.ALL_KINDS if r.random() < 0.6]
         for must in ('var', r.choice(['in', 'with', 'let', 'try', 'sub',
                                       'if'])):
@@ -132,10 +142,121 @@ def gen_case(seed, tier):
             case['threads'].append({'inputs': spec, 'plan': (
                 {str(r.choice([1, 2])): 'raise'} if r.random() < 0.15
                 else None)})
-    if case['bad_source']:
+    if case['bad_source'] and family != 'tree':
         case['src'] += r.choice(['<dtml-if x>', '<dtml-in seq>', '</dtml-if>',
                                  '<dtml-var "1+">'])
     return case
+
+
+def gen_tree_family(r, case):
+    """the tree tag with its real cookie protocol: every thread is a
+    browser tab that has clicked its way to some state (sequentially,
+    beforehand) and now sends its next request while the others send
+    theirs.  Tabs of one browser share the cookie jar, so two threads may
+    carry the very same tree-s string with different tree-e / tree-c
+    arguments."""
+    from . import c20
+    k = case['nthreads']
+    ntrees = 1 if r.random() < 0.65 else k
+    case['trees'] = [c20.gen_tree(r, r.choice([3, 5, 7, 12]),
+                                  r.choice([2, 3, 4]))
+                     for _ in range(ntrees)]
+    opts = {}
+    if r.random() < 0.2:
+        opts['branches'] = 'kids_m'
+    elif r.random() < 0.25:
+        opts['branches_expr'] = 'kidsof(idx)'
+    if r.random() < 0.15:
+        opts['sort'] = 'skey'
+    if r.random() < 0.15:
+        opts['reverse'] = 1
+    if r.random() < 0.15:
+        opts['assume_children'] = 1
+    opts['src'] = r.choice(['name', 'name', 'expr'])
+    case['opts'] = opts
+    case['src'] = r.choice(['', 'T:']) + c20.template_src(opts) + \
+        r.choice(['', '<dtml-var pre1>'])
+    case['bad_source'] = False
+    case['restricted'] = False
+
+    def op():
+        x = r.random()
+        if x < 0.12:
+            return {'op': 'expand_all'}
+        if x < 0.18:
+            return {'op': 'collapse_all'}
+        if x < 0.30:
+            return {'op': 'reload'}
+        return {'op': 'click', 'i': r.randint(0, 60),
+                'prefer': r.choice(['any', 'e', 'e', 'c', 'deep'])}
+    ths = []
+    for i in range(k):
+        share = None
+        if i and ntrees == 1 and r.random() < 0.6:
+            share = r.randrange(i)
+        hist = [op() for _ in range(r.choice([0, 0, 1, 2, 3, 5]))]
+        ths.append({'tree': i % ntrees, 'share': share, 'history': hist,
+                    'final': op(), 'plan': None})
+    case['threads'] = ths
+    case['requests'] = None      # resolved by the pre-pass, kept by pin()
+
+
+def tree_prepass(case):
+    """sequential browsing (run in a forked child, so that nothing it
+    decodes or caches is in the process that runs the schedules): returns
+    the request parameters each thread will send."""
+    from . import c20
+    from DocumentTemplate import HTML
+    tmpl = HTML(c20.template_src(case['opts']))
+    jars = []
+    out = []
+    for th in case['threads']:
+        root = c20.build(case['trees'][th['tree']])
+        byidx = {}
+
+        def reg(n):
+            byidx[n.idx] = n
+            for k_ in n.kids:
+                reg(k_)
+        reg(root)
+        jar = dict(jars[th['share']]) if th['share'] is not None else {}
+
+        def request(params):
+            resp = c20.Response()
+            req = {'root': root, 'URL': 'http://host/folder/page',
+                   'RESPONSE': resp,
+                   'kidsof': lambda idx: list(byidx[idx].kids)}
+            if 'tree-s' in jar:
+                req['tree-s'] = jar['tree-s']
+            req.update(params)
+            html = tmpl(None, req)
+            if 'tree-s' in resp.cookies:
+                jar['tree-s'] = resp.cookies['tree-s']
+            return [(idx, l) for idx, l, n in c20.parse_page(html) if l]
+
+        def params_of(o, links):
+            if o['op'] == 'expand_all':
+                return {'expand_all': 1}
+            if o['op'] == 'collapse_all':
+                return {'collapse_all': 1}
+            if o['op'] == 'click' and links:
+                sel = links
+                if o.get('prefer') in ('e', 'c'):
+                    sel = [x for x in links if x[1][0] == o['prefer']] or links
+                elif o.get('prefer') == 'deep':
+                    sel = links[len(links) // 2:]
+                idx, link = sel[o['i'] % len(sel)]
+                return {'tree-' + link[0]: link[1]}
+            return {}
+        links = request({})
+        for o in th['history']:
+            links = request(params_of(o, links))
+        p = params_of(th['final'], links)
+        if 'tree-s' in jar:
+            p['tree-s'] = jar['tree-s']
+        jars.append(jar)
+        out.append(p)
+    return out
 
 
 # ------------------------------------------------------------------ runner
@@ -165,7 +286,9 @@ def make_template(case):
     from . import c17
     cls = classes()['restricted' if case['restricted'] else 'plain']
     d = {}
-    if case['family'] == 'gen':
+    if case['family'] == 'tree':
+        pass
+    elif case['family'] == 'gen':
         for n, v in sorted(case['subs'].items()):
             d[n] = cls(v['src'], **dict(v['defaults']))
     else:
@@ -208,7 +331,46 @@ def thread_fn(case, i, t):
     from . import c08
     from . import c17
     th = case['threads'][i]
-    if case['family'] == 'gen':
+    if case['family'] == 'tree':
+        from . import c20
+        params = case['requests'][i]
+
+        class SlowNode(c20.Node):
+            """child access is a slow call into the application: it offers
+            a pre-emption point"""
+
+            def tpValues(self):
+                s = S.ACTIVE[0]
+                if s is not None:
+                    s.yield_point('callback:tpValues')
+                return list(self.kids)
+
+            kids_m = tpValues
+
+        def fn():
+            outs = []
+            for _ in range(case.get('calls', 1)):
+                root = c20.build(case['trees'][th['tree']], SlowNode)
+                byidx = {}
+
+                def reg(n):
+                    byidx[n.idx] = n
+                    for k_ in n.kids:
+                        reg(k_)
+                reg(root)
+                resp = c20.Response()
+                req = {'root': root, 'URL': 'http://host/folder/page',
+                       'RESPONSE': resp, 'pre1': '@%d' % i,
+                       'kidsof': lambda idx: list(byidx[idx].kids)}
+                req.update(params)
+                try:
+                    outs.append(['val', M.describe(norm(t(None, req))),
+                                 sorted(resp.cookies.items())])
+                except Exception as e:
+                    outs.append(['raise', type(e).__name__,
+                                 norm(str(e))[:300]])
+            return outs
+    elif case['family'] == 'gen':
         def fn():
             env = Env18(case['script'], th.get('plan') or {})
             env.shift = th['shift']
@@ -305,11 +467,20 @@ def solo(case):
     fresh template"""
     outs, profs = [], []
     for i in range(case['nthreads']):
-        t = make_template(case)
-        out, points = S.solo_profile(thread_fn(case, i, t),
-                                     opcode=case['opcode'])
+        def alone(i=i):
+            t = make_template(case)
+            out, points = S.solo_profile(thread_fn(case, i, t),
+                                         opcode=case['opcode'])
+            if out[0] != 'ok':
+                return ('exc', repr(out[1])), points
+            return out, points
+        # "running alone" means alone in the interpreter as well: each
+        # reference comes from a forked child in which nothing else has been
+        # rendered, so process-wide state of the package cannot carry one
+        # thread's request into another thread's reference
+        out, points = core.forked(alone, CASE_TIMEOUT)
         if out[0] != 'ok':
-            raise out[1]
+            raise RuntimeError('solo run failed: %s' % (out[1],))
         outs.append(out[1])
         profs.append(points)
     return outs, profs
@@ -354,6 +525,14 @@ def judge(case, sim, expected):
 
 
 def run_case(case):
+    """every case runs in a forked child of the calling process: it starts
+    from the interpreter state right after warm-up, whatever ran before, so
+    that a case is a pure function of (case, code) even for code that keeps
+    process-wide state"""
+    return core.forked(lambda: _run_case(case), CASE_TIMEOUT)
+
+
+def _run_case(case):
     probes, faults = {}, {}
     violations = []
     nontrivial = set()
@@ -364,11 +543,14 @@ def run_case(case):
     def probe(n):
         probes[n] = probes.get(n, 0) + 1
 
+    if case['family'] == 'tree' and case.get('requests') is None:
+        case = dict(case, requests=core.forked(lambda: tree_prepass(case),
+                                               CASE_TIMEOUT))
     expected, profiles = solo(case)
     total = sum(len(p) for p in profiles)
     cap = 50 * total + 2000
     chash = core.chash([case['src'], case['threads'], case['precooked'],
-                        case['restricted']])
+                        case['restricted'], case.get('trees')])
     for p in profiles:
         extra['profile_lines'].update(p)
     evaluations = steps = 0
@@ -387,6 +569,8 @@ def run_case(case):
             x['detail'].update(strategy=name, segments=segs,
                                ends=[r[2:] for r in sim.record],
                                source=case['src'][:1200])
+            if case['family'] == 'tree':
+                x['detail']['requests'] = case['requests']
         sw = [s for s in sim.switches if s[1] != 'finished']
         h = hashlib.sha256(repr(sim.switches).encode()).digest()[:6]
         extra['interleavings'].add(int.from_bytes(h, 'big'))
@@ -479,6 +663,14 @@ def run_case(case):
         probe('shared_sub_template')
     if '<dtml-tree' in case['src']:
         probe('tree_tag')
+    if case['family'] == 'tree':
+        probe('tree_cookie_protocol')
+        rq = case['requests']
+        if any(a.get('tree-s') and a.get('tree-s') == b.get('tree-s')
+               for n_, a in enumerate(rq) for b in rq[n_ + 1:]):
+            probe('two_threads_carry_the_same_tree_s')
+        if any('tree-e' in a or 'tree-c' in a for a in rq):
+            probe('tree_click_request')
     return {'violations': violations[:1], 'steps': steps, 'faults': faults,
             'probes': probes, 'nontrivial': sorted(nontrivial),
             'digest': dg.hexdigest()[:12], 'evaluations': evaluations,
@@ -527,7 +719,10 @@ def sample(case, res):
 def pin(case, violation):
     segs = violation.get('detail', {}).get('segments')
     if case.get('segments') is None and segs is not None:
-        return dict(case, segments=segs)
+        c = dict(case, segments=segs)
+        if case['family'] == 'tree' and case.get('requests') is None:
+            c['requests'] = violation['detail'].get('requests')
+        return c
     return None
 
 
@@ -542,12 +737,17 @@ def shrink(case):
         if segs[i][0] == segs[i + 1][0]:
             merged = [segs[i][0], min(FOREVER, segs[i][1] + segs[i + 1][1])]
             yield dict(case, segments=segs[:i] + [merged] + segs[i + 2:])
-    if case['nthreads'] > 2:
+    if case['nthreads'] > 2 and not (case['family'] == 'tree' and
+                                     case.get('requests') is None):
         for drop in range(case['nthreads']):
             ths = case['threads'][:drop] + case['threads'][drop + 1:]
             ns = [[t - (t > drop), n] for t, n in segs if t != drop]
-            yield dict(case, nthreads=case['nthreads'] - 1, threads=ths,
-                       segments=ns)
+            c = dict(case, nthreads=case['nthreads'] - 1, threads=ths,
+                     segments=ns)
+            if case['family'] == 'tree':
+                c['requests'] = case['requests'][:drop] + \
+                    case['requests'][drop + 1:]
+            yield c
     for i, (t, n) in enumerate(segs):
         if 1 < n < FOREVER:
             for m in (n // 2, n - 1):
